@@ -3,8 +3,10 @@ package c04deque
 import (
 	"fmt"
 	"math"
+	"runtime"
 	"testing"
 	"time"
+	"weak"
 
 	"github.com/bradenaw/juniper/container/deque"
 	"pgregory.net/rapid"
@@ -107,15 +109,22 @@ func genOp(t *rapid.T) Op {
 }
 
 func genPlan(t *rapid.T) Plan {
-	return Plan{Ops: rapid.SliceOfN(rapid.Custom(genOp), 1, 80).Draw(t, "ops")}
+	p := Plan{Ops: rapid.SliceOfN(rapid.Custom(genOp), 1, 80).Draw(t, "ops")}
+	if rapid.IntRange(0, 24).Draw(t, "backlog") == 0 { // one plan in 25 builds up a backlog of 1000-4300 items somewhere
+		at := rapid.IntRange(0, len(p.Ops)).Draw(t, "backlogat")
+		bulk := Op{Op: "BulkPush", A: rapid.IntRange(0, 3299).Draw(t, "backlogn")}
+		p.Ops = append(p.Ops[:at], append([]Op{bulk}, p.Ops[at:]...)...)
+	}
+	return p
 }
 
-// runner is generic over the element type: *int (fresh pointers, so that retention is visible) and
+// runner is generic over the element type: *elem (fresh pointers, so that retention is visible) and
 // any (values that include the nil interface and the zero int - a zero value is an ordinary element).
 type runner[T comparable] struct {
 	d      deque.Deque[T]
 	model  []T
 	mk     func(id int) T
+	popped func(T) // called with every popped element (weak-pointer bookkeeping for the pointer instantiation)
 	nextID int
 	out    vk.Outcome
 	// facts for the non-trivial rule
@@ -189,6 +198,26 @@ func (r *runner[T]) observe(step int, o Op) error {
 			return vk.Violf("iterate", "step %d %v: Iterate item %d = %v want %v", step, o, i, deref(got), deref(r.model[i]))
 		}
 	}
+	// two iterators alive at once are independent of each other: an outer one, and for its first three items a
+	// complete inner walk (iterating pairs)
+	if n := len(r.model); n >= 2 && n <= 64 {
+		outer := d.Iterate()
+		for i := 0; i < n; i++ {
+			got, ok := outer.Next()
+			if !ok || got != r.model[i] {
+				return vk.Violf("iterate", "step %d %v: outer iterator item %d = (%v, %v), want %v (another iterator over the same deque was used in between)", step, o, i, deref(got), ok, deref(r.model[i]))
+			}
+			if i < 3 {
+				inner := d.Iterate()
+				for j := 0; j <= n; j++ {
+					g2, ok2 := inner.Next()
+					if ok2 != (j < n) || (ok2 && g2 != r.model[j]) {
+						return vk.Violf("iterate", "step %d %v: inner iterator (created while another one is in use) item %d = (%v, %v)", step, o, j, deref(g2), ok2)
+					}
+				}
+			}
+		}
+	}
 	// retention: every raw slot outside the live window is nil.
 	capacity, front, back, _ := d.VerifState()
 	slots := d.VerifSlots()
@@ -220,12 +249,20 @@ func (r *runner[T]) observe(step int, o Op) error {
 	return nil
 }
 
+// elem is what the pointer instantiation stores. It is deliberately larger than 16 bytes: the runtime packs
+// smaller pointer-free objects several to a block ("tiny allocator"), and a weak pointer to one of them
+// stays live for as long as any of its block mates does.
+type elem struct {
+	id  int
+	pad [3]int
+}
+
 func deref(p any) any {
-	if q, ok := p.(*int); ok {
+	if q, ok := p.(*elem); ok {
 		if q == nil {
 			return nil
 		}
-		return *q
+		return q.id
 	}
 	return p
 }
@@ -253,6 +290,11 @@ func (r *runner[T]) popFront(step int, o Op) error {
 	if got != r.model[0] {
 		return vk.Violf("pop", "step %d %v: PopFront()=%v want %v", step, o, deref(got), deref(r.model[0]))
 	}
+	if r.popped != nil {
+		r.popped(got)
+	}
+	var zero T
+	r.model[0] = zero // (the model must not keep the popped element alive either)
 	r.model = r.model[1:]
 	return nil
 }
@@ -261,6 +303,11 @@ func (r *runner[T]) popBack(step int, o Op) error {
 	if got != r.model[len(r.model)-1] {
 		return vk.Violf("pop", "step %d %v: PopBack()=%v want %v", step, o, deref(got), deref(r.model[len(r.model)-1]))
 	}
+	if r.popped != nil {
+		r.popped(got)
+	}
+	var zero T
+	r.model[len(r.model)-1] = zero
 	r.model = r.model[:len(r.model)-1]
 	return nil
 }
@@ -326,6 +373,42 @@ func (r *runner[T]) step(step int, o Op) error {
 			}
 			r.out.Label("shrink")
 		}
+	case "BulkPush":
+		// a long backlog: more items than the small plans ever hold (growth policies change with size); the
+		// full observation runs every 257th push and at the end
+		n := 1000 + o.A%3300
+		for i := 0; i < n; i++ {
+			r.pushBack() // (at the back only: the slice model pays O(n) for every push at the front)
+			if d.Len() != len(r.model) {
+				return vk.Violf("len", "step %d %v: after %d pushes of the backlog Len()=%d, model %d", step, o, i+1, d.Len(), len(r.model))
+			}
+			if i%257 == 0 {
+				if err := r.observe(step, o); err != nil {
+					return err
+				}
+			}
+		}
+		if err := r.observe(step, o); err != nil {
+			return err
+		}
+		// ... and the backlog is worked off again (so that the rest of the plan runs on a small deque)
+		for i := 0; len(r.model) > n%97; i++ {
+			var err error
+			if (o.A/2)%2 == 0 {
+				err = r.popFront(step, o)
+			} else {
+				err = r.popBack(step, o)
+			}
+			if err != nil {
+				return err
+			}
+			if i%257 == 0 {
+				if err := r.observe(step, o); err != nil {
+					return err
+				}
+			}
+		}
+		r.out.Label("backlog>1000")
 	case "PushBackN", "PushFrontN":
 		for i := 0; i < arg && i < 200; i++ {
 			if o.Op == "PushBackN" {
@@ -380,8 +463,41 @@ func (r *runner[T]) step(step int, o Op) error {
 	return r.observe(step, o)
 }
 
+// runPlan: pointer elements. Besides the raw-slot check after every step, "popped elements are not
+// retained" is checked the way a user would notice it: every popped element is remembered through a weak
+// pointer only, and after a garbage collection at the end of the plan - the deque itself still alive -
+// none of them may be reachable any more (this also sees storage the read-only hook cannot see, such as
+// the part of a backing array beyond the slice the deque keeps).
 func runPlan(p Plan) (vk.Outcome, error) {
-	return runWith(p, func(id int) *int { v := new(int); *v = id; return v })
+	var weaks []weak.Pointer[elem]
+	var ids []int
+	r := &runner[*elem]{mk: func(id int) *elem { return &elem{id: id} }}
+	r.popped = func(e *elem) {
+		weaks = append(weaks, weak.Make(e))
+		ids = append(ids, e.id)
+	}
+	out, err := runOn(r, p)
+	if err != nil {
+		return out, err
+	}
+	gcWanted := len(p.Ops)%4 == 0
+	for _, o := range p.Ops {
+		if o.Op == "Shrink" || o.Op == "Grow" {
+			gcWanted = true
+		}
+	}
+	if gcWanted && len(weaks) > 0 {
+		runtime.GC()
+		for i, w := range weaks {
+			if w.Value() != nil {
+				runtime.KeepAlive(r)
+				return out, vk.Violf("retained", "element %d was popped, yet it is still reachable after a garbage collection while the deque (len %d) is alive: the deque retains it", ids[i], r.d.Len())
+			}
+		}
+		out.Label("gc-retention-checked")
+	}
+	runtime.KeepAlive(r)
+	return out, nil
 }
 
 // runPlanAny: elements are interface values; every third one is the nil interface, every third one 0.
@@ -398,7 +514,10 @@ func runPlanAny(p Plan) (vk.Outcome, error) {
 }
 
 func runWith[T comparable](p Plan, mk func(int) T) (vk.Outcome, error) {
-	r := &runner[T]{mk: mk}
+	return runOn(&runner[T]{mk: mk}, p)
+}
+
+func runOn[T comparable](r *runner[T], p Plan) (vk.Outcome, error) {
 	if err := r.observe(-1, Op{Op: "zero"}); err != nil {
 		return r.out, err
 	}
